@@ -443,11 +443,47 @@ def loose_eq(a, b, ignore_dates=False):
         return False
 
 
+def doc_eq(a, b):
+    """Equality of two serialized documents, up to the order of a list (the JSON form of a set has no order of its own;
+    the order of Arrays is compared on the instances)."""
+    if type(a) is not type(b):
+        return False
+    if isinstance(a, dict):
+        return a.keys() == b.keys() and all(doc_eq(a[k], b[k]) for k in a)
+    if isinstance(a, list):
+        if len(a) != len(b):
+            return False
+        if all(doc_eq(x, y) for x, y in zip(a, b)):
+            return True
+        rest = list(b)
+        for x in a:
+            for i, y in enumerate(rest):
+                if doc_eq(x, y):
+                    del rest[i]
+                    break
+            else:
+                return False
+        return True
+    return a == b
+
+
+def json_kind(j):
+    if j is None:
+        return "null"
+    if isinstance(j, (bool, int, float)):
+        return "number"        # Python == (and so dict lookup, Enum literals, by-value enums) does not separate False from 0
+    return {str: "string", list: "array", dict: "object"}.get(type(j), "other")
+
+
 def distinguishable(f, v, ctx, rejections=None):
-    """The AnyOf hypothesis of the property, measured on this value: the FIRST option (in declaration order) whose own
-    deserializer reads the serialized value reads it as the value itself.  True also when no option reads it at all
-    (then nothing is ambiguous: the failure is the option's own).  None: could not be measured.
-    rejections (a list, optional) receives the exception class of every earlier option that rejected the document."""
+    """The AnyOf hypothesis of the property, measured on this value.  j = the serialized value.  The options are NOT
+    distinguishable on it when some option CLAIMS j as the document of a different value w: that option's own
+    deserializer reads j as w, w is accepted by that option, and w serializes to a document of the same JSON kind as j
+    (Set and Array options both claim an array; a String option claims the name of an enum member).  An option that
+    merely mis-reads j is no witness: NoneField reading [] as None (None serializes to null/absent, not to an array), a
+    Set(maxItems=2) reading a longer list (it does not accept the result).  None: could not be measured.
+    rejections (a list, optional) receives the exception class of every option that rejected the document before the
+    first one that read it."""
     from typedpy import Serializer, deserialize_single_field
     try:
         T = field_class(f, ctx)
@@ -458,15 +494,24 @@ def distinguishable(f, v, ctx, rejections=None):
         return None
     if stored is None:
         return True
+    read = False
     for g in f["fs"]:
         try:
-            fld = getattr(field_class(g, ctx), "f")
-            got = deserialize_single_field(fld, j, "f")
+            Tg = field_class(g, ctx)
+            got = deserialize_single_field(getattr(Tg, "f"), j, "f")
         except Exception as ex:  # noqa
-            if rejections is not None:
+            if rejections is not None and not read:
                 rejections.append(type(ex).__name__)
             continue
-        return loose_eq(got, stored)
+        read = True
+        try:
+            xg = Tg(f=got)
+            witness = json_kind(Serializer(xg).serialize().get("f")) == json_kind(j)
+            w = xg.__dict__.get("f")
+        except Exception:  # noqa
+            continue
+        if witness and not loose_eq(w, stored):
+            return False
     return True
 
 
@@ -481,6 +526,18 @@ def serializing_option(f, stored, ctx):
                 fld._validate(stored)
             serialize_field(fld, stored)
             return g
+        except Exception:  # noqa
+            continue
+    return None
+
+
+def deserializing_option(f, doc, ctx):
+    """(option, value) of the first option of AnyOf declaration f whose own deserializer reads the document -- the one
+    deserialize_multifield_wrapper commits to -- or None."""
+    from typedpy import deserialize_single_field
+    for g in f["fs"]:
+        try:
+            return g, deserialize_single_field(getattr(field_class(g, ctx), "f"), doc, "f")
         except Exception:  # noqa
             continue
     return None
